@@ -41,6 +41,7 @@ def run(ctx) -> None:
     ctx.rule("R4", "_cmpkey sentinel table and tuple order")
     ctx.rule("R5", "parse falls back only on InvalidVersion; regex anchored, VERBOSE|IGNORECASE")
     ctx.rule("R6", "every ordering comparison / sort key in cli resolves to version.parse_version")
+    ctx.rule("R8", "key components are mutually comparable: local labels are int (digits) or lower-cased str; legacy parts are str, numbers zero-padded to >= 8 digits")
     ctx.rule("R7", "canonical printing: optional segments tested with `is not None` (0 is a valid number); spellings lower-cased before normalisation")
 
     base = prog.klass(f"{M}._BaseVersion")
@@ -227,3 +228,64 @@ def run(ctx) -> None:
     ok = len(lowers) == 1 and tests and all(t.id not in g.reachable(blocked_nodes=[lowers[0].id]) for t in tests)
     ctx.check("R7", ok, "_parse_letter_version lower-cases the letter before comparing spellings (the regex is case-insensitive)",
               f"{M}._parse_letter_version: alternate spellings are compared before lower-casing", "e.g. 1.0ALPHA1 is not normalised to 1.0a1", loc=plv.loc(), witness="1.0ALPHA1")
+
+    # ---------------------------------------------------------------- R8
+    # (a) local version segments: PEP 440 compares them case-insensitively; digits numerically
+    plo = prog.function(f"{M}._parse_local_version")
+    ctx.visit(plo.fq)
+    comps = [n for n in ast.walk(plo.node) if isinstance(n, (ast.GeneratorExp, ast.ListComp)) and len(n.generators) == 1 and isinstance(n.generators[0].target, ast.Name)]
+    ctx.require(len(comps) == 1, "_parse_local_version: segment comprehension not found")
+    seg = comps[0].generators[0].target.id
+    alts: T.List[T.Tuple[bool, ast.AST]] = []      # (segment is all digits, value)
+
+    def split_local(e: ast.AST, digit: T.Optional[bool]) -> None:
+        if isinstance(e, ast.IfExp):
+            t, neg = e.test, False
+            while isinstance(t, ast.UnaryOp) and isinstance(t.op, ast.Not):
+                t, neg = t.operand, not neg
+            ctx.require(unparse(t) in (f"{seg}.isdigit()", f"{seg}.isdecimal()", f"{seg}.isnumeric()") and digit is None,
+                        f"_parse_local_version: segment test not enumerated: `{unparse(e.test)}`")
+            split_local(e.body, not neg)
+            split_local(e.orelse, neg)
+        else:
+            ctx.require(digit is not None, f"_parse_local_version: segments are not classified by isdigit(): `{unparse(e)}`")
+            alts.append((digit, e))
+    split_local(comps[0].elt, None)
+    for digit, e in alts:
+        if digit:
+            ctx.check("R8", unparse(e) == f"int({seg})", "local version: a digit segment becomes int (numeric comparison)",
+                      f"{M}._parse_local_version: digit segments are not compared numerically", f"`{unparse(e)}`: 1.0+9 would sort after 1.0+10", loc=plo.loc(e), witness=["1.0+9", "1.0+10"])
+        else:
+            ctx.check("R8", unparse(e) in (f"{seg}.lower()", f"{seg}.casefold()"), "local version: an alphanumeric segment is lower-cased (PEP 440: case-insensitive)",
+                      f"{M}._parse_local_version: alphanumeric local segments keep their case",
+                      f"`{unparse(e)}`: 1.0+ABC and 1.0+abc compare unequal and print differently, although PEP 440 treats them as the same version", loc=plo.loc(e),
+                      witness=["1.0+ABC", "1.0+abc"])
+    ctx.floor("R8", "alternatives of a local segment", len(alts), 2)
+    # (b) legacy keys: a tuple of strings; numbers padded so that string order is numeric order
+    pvp = prog.function(f"{M}._parse_version_parts")
+    ctx.visit(pvp.fq)
+    yields = [n for n in walk_no_nested(pvp.node) if isinstance(n, ast.Yield) and n.value is not None]
+    ctx.floor("R8", "yield sites in _parse_version_parts", len(yields), 2)
+    STR_METHODS = {"zfill", "lower", "upper", "strip", "rjust", "ljust", "format", "join", "replace", "casefold"}
+    n_pad = 0
+    for y in yields:
+        v = y.value
+        is_str = (isinstance(v, ast.Constant) and isinstance(v.value, str)) or \
+                 (isinstance(v, ast.BinOp) and isinstance(v.op, ast.Add) and any(isinstance(x, ast.Constant) and isinstance(x.value, str) for x in (v.left, v.right))) or \
+                 (isinstance(v, ast.Call) and isinstance(v.func, ast.Attribute) and v.func.attr in STR_METHODS) or isinstance(v, ast.JoinedStr)
+        ctx.check("R8", is_str, f"_parse_version_parts yields a string (`{unparse(v)}`)", f"{M}._parse_version_parts: a legacy key component is not a string",
+                  f"`yield {unparse(v)}`: legacy keys then mix types, and comparing two legacy versions where a number meets a word raises TypeError "
+                  f"(no total order)", loc=pvp.loc(y), witness=["1.0.dev-rc", "1.0.1-rc"])
+        if isinstance(v, ast.Call) and isinstance(v.func, ast.Attribute) and v.func.attr in ("zfill", "rjust"):
+            n_pad += 1
+            w = v.args[0].value if v.args and isinstance(v.args[0], ast.Constant) else None
+            ctx.check("R8", isinstance(w, int) and w >= 8, f"numeric legacy parts are zero-padded to {w} digits", f"{M}._parse_version_parts: numeric parts are padded to fewer than 8 digits",
+                      f"`{unparse(v)}`", loc=pvp.loc(y))
+    # the digit branch must be one of the padded yields
+    dig = [n for n in walk_no_nested(pvp.node) if isinstance(n, ast.If) and "0123456789" in unparse(n.test)]
+    ctx.require(len(dig) == 1, "_parse_version_parts: digit test not found")
+    dy = [n for st in dig[0].body for n in ast.walk(st) if isinstance(n, ast.Yield)]
+    ok_pad = len(dy) == 1 and isinstance(dy[0].value, ast.Call) and isinstance(dy[0].value.func, ast.Attribute) and dy[0].value.func.attr in ("zfill", "rjust")
+    ctx.check("R8", ok_pad,
+              "numeric legacy parts are yielded zero-padded (string order == numeric order)", f"{M}._parse_version_parts: numeric parts are not zero-padded strings",
+              f"`{unparse(dy[0].value) if dy else None}`: '10' would sort before '9'", loc=pvp.loc(dig[0]))
